@@ -16,13 +16,15 @@ def _alarm(signum, frame):
 
 
 def with_timeout(seconds, fn, *a):
-    old = signal.signal(signal.SIGALRM, _alarm)
-    signal.setitimer(signal.ITIMER_REAL, seconds)
+    """run fn(*a) under a limit of `seconds` of this process's CPU time (ITIMER_VIRTUAL): a loaded machine does not turn a
+    slow wall clock into a timeout"""
+    old = signal.signal(signal.SIGVTALRM, _alarm)
+    signal.setitimer(signal.ITIMER_VIRTUAL, seconds)
     try:
         return fn(*a)
     finally:
-        signal.setitimer(signal.ITIMER_REAL, 0)
-        signal.signal(signal.SIGALRM, old)
+        signal.setitimer(signal.ITIMER_VIRTUAL, 0)
+        signal.signal(signal.SIGVTALRM, old)
 
 
 def impl_lex_items(text, filename=""):
